@@ -738,6 +738,8 @@ where
                 let blocked_on_estimate = accesses.is_blocked();
                 let IncarnationAccesses { blocking_txs, blocked_by_beneficiary, .. } = accesses;
                 let invalid_transaction = matches!(e, EVMError::Transaction(_));
+                #[cfg(grevm_verif)]
+                let verif_invalid = matches!(e, EVMError::Transaction(_));
                 conflict = true;
                 let mut write_set = HashSet::new();
 
@@ -749,7 +751,7 @@ where
                     self.mark_mv_estimate(txid, &write_set);
                 }
                 #[cfg(grevm_verif)]
-                crate::verif::p3("ben_record_err", txid as i64, incarnation as i64, invalid_transaction as i64);
+                crate::verif::p3("ben_record_err", txid as i64, incarnation as i64, verif_invalid as i64);
                 if !beneficiary.record_estimate(&tx_version) {
                     self.abort(AbortReason::ParallelError {
                         txid,
@@ -773,7 +775,7 @@ where
                 } else {
                     self.metrics.record_evm_error_conflict();
                     #[cfg(grevm_verif)]
-                    crate::verif::p2("exec_err_gate", txid as i64, invalid_transaction as i64);
+                    crate::verif::p2("exec_err_gate", txid as i64, verif_invalid as i64);
                     if self.scheduler_ctx.committed_idx() == txid {
                         if invalid_transaction {
                             self.abort(AbortReason::FallbackSequential);
